@@ -6,6 +6,7 @@ import (
 	"go/constant"
 	"go/token"
 	"go/types"
+	"os"
 	"sort"
 	"strings"
 
@@ -20,29 +21,147 @@ func init() {
 		ID: "C19", Title: "Error classes survive wrapping and the gRPC boundary",
 		Pkgs:      []string{"errors"},
 		Run:       runC19,
-		Technique: "static analysis: exhaustive agreement check of the two hand-written class<->code tables over all classes x all 17 gRPC codes on the type-checked AST, plus call-shape rules on go/ssa",
-		Explanation: "R1: with e2c the class->code literal and c2e the code->class literal extended by the fallback FromGRPCError returns on a miss, c2e(e2c(k)) is k for every class k of e2c, and c2e(code) is non-nil for every one of the 17 codes except OK (finite, exhaustive). " +
+		Technique: "static analysis: the class<->code mappings are evaluated, not pattern-matched: the package initialiser and the API functions are executed symbolically on go/ssa (rules/x_d.go) in every scenario of the finite space {status.Code(err) = each of the 17 gRPC codes and one code outside of them} x {the chain of err holds one class of the class universe / none}, and the results are compared exhaustively; class independence is decided on the type-checked AST",
+		Explanation: "With c2e(k) the value FromGRPCError returns when status.Code(err) is k, and e2c(x) the code GRPCStatusCode returns for an uncoded error whose chain holds exactly the class x (the classes are those GRPCStatusCode tests err against; when a class->code table exists they are its keys): " +
+			"R1: c2e(e2c(x)) is x for every class x, c2e(code) is a non-nil class for each of the 17 codes except OK and for a code outside of the 17, c2e(OK) is nil (finite, exhaustive). " +
 			"R2: no class maps to codes.OK or codes.Unknown (status.Error(OK) is nil; Unknown means 'not wrapped yet' to GRPCWrap). " +
 			"R3: every class variable is initialised from a distinct foreign variable or by fmt.Errorf/errors.New with a constant format that contains no %w, so the classes are pairwise independent values. " +
-			"R4: GRPCWrap passes err.Error() of its parameter as the status message, returns an already coded error unchanged, and obtains the code from GRPCStatusCode; EmbedObject and ExtractObject share one marker constant, the former emits it twice around the payload and wraps the error with %w, the latter expects exactly three parts. " +
-			"R5: Is consults errors.Is(err,target) and errors.Is(FromGRPCError(err),target). " +
-			"R6: GRPCStatusCode falls back, for an uncoded error, to a range over the class->code table testing errors.Is(err, class) and returns that entry's code; FromGRPCError indexes the code->class table with status.Code(err). R7: no map keyed by error is indexed with an error passed in by the caller (an unhashable dynamic type would panic).",
-		NotDecided: "the behaviour of fmt, errors, encoding/json and grpc status (trusted); message texts that themselves contain the marker.",
-		Trusted:    []string{"fmt.Errorf(\"%w\") / errors.Is chain semantics", "google.golang.org/grpc/status.Code, status.Error, codes constants"},
+			"R4: in every scenario GRPCWrap returns its argument unchanged when status.Code(err) is not Unknown and status.Error(GRPCStatusCode(err), err.Error()) otherwise; EmbedObject produces <marker><payload computed from o><marker>...%w err with the marker constant ExtractObject separates the message by; ExtractObject unmarshals the text between the markers exactly when the message holds exactly two markers (Split into 3 parts, or Cut, Cut and no marker in the tail). " +
+			"R5: in every scenario Is(err, target) is true exactly when errors.Is(err, target) holds or c2e(status.Code(err)) is target. " +
+			"R6: the result of FromGRPCError is a function of status.Code(err) only; GRPCStatusCode returns status.Code(err) when that is not Unknown, and otherwise finds the class by errors.Is(err, class) for every class of the class->code table and returns the code of that entry. R7: no map keyed by error is indexed with an error passed in by the caller (an unhashable dynamic type would panic).",
+		NotDecided: "the behaviour of fmt, errors, strings, encoding/json and grpc status (trusted, calls into them are treated as pure functions); message texts that themselves contain the marker.",
+		Trusted:    []string{"fmt.Errorf(\"%w\") / errors.Is chain semantics", "google.golang.org/grpc/status.Code, status.Error, codes constants", "strings.Split / strings.Cut / strings.Contains / strings.Index semantics"},
 	})
 }
 
+const (
+	c19StatusCode  = "google.golang.org/grpc/status.Code"
+	c19StatusError = "google.golang.org/grpc/status.Error"
+	c19OutOfRange  = int64(1) << 20 // a status code that is none of the 17 named ones
+)
+
 type c19tables struct {
 	pk       *packages.Package
-	e2c      map[*types.Var]int64 // class -> code
-	e2cPos   map[*types.Var]token.Pos
-	c2e      map[int64]*types.Var // code -> class (nil value = explicit nil)
-	c2eHas   map[int64]bool
+	sp       *ssa.Package
+	e2cPos   map[*types.Var]token.Pos // positions of the entries when the table is a literal (reporting only)
 	c2ePos   map[int64]token.Pos
 	e2cVar   *types.Var
 	c2eVar   *types.Var
 	codes    map[int64]string // all exported codes.Code constants
 	codeType types.Type
+	env      *sxEnv
+}
+
+// c19scn is one scenario: what the environment answers about the error passed in.
+type c19scn struct {
+	code  int64       // status.Code(err)
+	class *ssa.Global // the one class errors.Is(err, .) finds in the chain of err; nil: none
+}
+
+// inScenario runs fn(err, ...) in scenario s. asked collects the classes err was tested against.
+func (t *c19tables) inScenario(fn *ssa.Function, s c19scn, asked map[*ssa.Global]bool) ([]*sxPath, error) {
+	perr := c19errParam(fn, 0)
+	t.env.call = func(name string, args []sxVal) sxVal {
+		switch {
+		case c19isStatusCode(name, args, perr):
+			return sxInt(s.code)
+		case name == "errors.Is" && len(args) == 2 && args[0].key() == perr.key():
+			if g, ok := args[1].(sxGlob); ok {
+				if asked != nil {
+					asked[g.g] = true
+				}
+				return sxBool(g.g == s.class)
+			}
+		}
+		return nil
+	}
+	t.env.nonNil = func(v sxVal) bool {
+		// status.Code(nil) is OK: with any other code the error is not nil
+		return v.key() == perr.key() && t.codes[s.code] != "OK"
+	}
+	defer func() { t.env.call, t.env.nonNil = nil, nil }()
+	var args []sxVal
+	for _, p := range fn.Params {
+		args = append(args, sxParam(p.Name()))
+	}
+	paths, err := sxExplore(t.env, fn, args)
+	if os.Getenv("VERIF_C19_DEBUG") != "" {
+		cl := "-"
+		if s.class != nil {
+			cl = s.class.Name()
+		}
+		fmt.Fprintf(os.Stderr, "C19 %s code=%d class=%s err=%v\n%s\n", fn.Name(), s.code, cl, err, sxDump(paths))
+	}
+	return paths, err
+}
+
+// c19out is the result of one path of a function run in a scenario.
+type c19out struct {
+	val      sxVal
+	nilParam string // key of the parameter the path found to be nil ("" none)
+	path     *sxPath
+}
+
+// c19outs returns the results of the paths of a run whose course depends on nothing but the scenario - and on whether
+// a parameter is nil, the one thing a scenario leaves open (an error with the code OK may be nil): a function that
+// tests its argument for nil first is the same function.
+func c19outs(paths []*sxPath, err error) ([]c19out, string) {
+	if err != nil {
+		return nil, err.Error()
+	}
+	var res []c19out
+	for _, p := range paths {
+		o := c19out{path: p}
+		for _, d := range p.conds {
+			eq := sxIsTerm(d.atom, "==")
+			if eq == nil || len(eq.args) != 2 {
+				return nil, "the result depends on " + d.atom.key()
+			}
+			var other sxVal
+			switch {
+			case sxIsNil(eq.args[0]):
+				other = eq.args[1]
+			case sxIsNil(eq.args[1]):
+				other = eq.args[0]
+			}
+			pt, _ := other.(*sxTerm)
+			if pt == nil || !strings.HasPrefix(pt.op, "param:") {
+				return nil, "the result depends on " + d.atom.key()
+			}
+			if d.taken {
+				o.nilParam = pt.key()
+			}
+		}
+		switch {
+		case p.panicked:
+			return nil, "panics"
+		case len(p.ret) != 1:
+			return nil, "not a single result"
+		}
+		o.val = p.ret[0]
+		if o.val.key() == o.nilParam {
+			o.val = sxNil() // the parameter is nil on this path
+		}
+		res = append(res, o)
+	}
+	if len(res) == 0 {
+		return nil, "no result"
+	}
+	return res, ""
+}
+
+// c19single returns the one result all the paths agree on.
+func c19single(paths []*sxPath, err error) (sxVal, string) {
+	outs, why := c19outs(paths, err)
+	if why != "" {
+		return nil, why
+	}
+	for _, o := range outs[1:] {
+		if o.val.key() != outs[0].val.key() {
+			return nil, "no unique result: " + outs[0].val.key() + " / " + o.val.key()
+		}
+	}
+	return outs[0].val, ""
 }
 
 func runC19(c *Ctx) {
@@ -50,7 +169,7 @@ func runC19(c *Ctx) {
 	if pk == nil {
 		c.Fatalf("package errors not loaded")
 	}
-	t := &c19tables{pk: pk, e2c: map[*types.Var]int64{}, e2cPos: map[*types.Var]token.Pos{}, c2e: map[int64]*types.Var{}, c2eHas: map[int64]bool{}, c2ePos: map[int64]token.Pos{}, codes: map[int64]string{}}
+	t := &c19tables{pk: pk, sp: c.P.SSAPkg("errors"), e2cPos: map[*types.Var]token.Pos{}, c2ePos: map[int64]token.Pos{}, codes: map[int64]string{}}
 	// the gRPC code universe
 	var codesPkg *types.Package
 	for _, imp := range pk.Types.Imports() {
@@ -75,9 +194,20 @@ func runC19(c *Ctx) {
 	if len(t.codes) != 17 {
 		c.Fatalf("role codes: expected the 17 gRPC status codes, found %d", len(t.codes))
 	}
+	codeOf := func(name string) int64 {
+		for v, n := range t.codes {
+			if n == name {
+				return v
+			}
+		}
+		c.Fatalf("role codes.%s not found", name)
+		return 0
+	}
+	codeUnknown := codeOf("Unknown")
 	errT := types.Universe.Lookup("error").Type()
 
-	// locate the two table literals by their types
+	// the two tables are package-level variables recognised by their types, whatever builds them (a literal, a builder
+	// run by the package initialiser); a mapping that is a function instead of a table has no such variable
 	for _, f := range pk.Syntax {
 		for _, d := range f.Decls {
 			gd, ok := d.(*ast.GenDecl)
@@ -88,16 +218,16 @@ func runC19(c *Ctx) {
 				vs := sp.(*ast.ValueSpec)
 				for i, name := range vs.Names {
 					obj, _ := pk.TypesInfo.Defs[name].(*types.Var)
-					if obj == nil || i >= len(vs.Values) {
+					if obj == nil {
 						continue
 					}
 					mt, ok := obj.Type().Underlying().(*types.Map)
 					if !ok {
 						continue
 					}
-					cl, ok := ast.Unparen(vs.Values[i]).(*ast.CompositeLit)
-					if !ok {
-						continue
+					var cl *ast.CompositeLit
+					if i < len(vs.Values) {
+						cl, _ = ast.Unparen(vs.Values[i]).(*ast.CompositeLit)
 					}
 					switch {
 					case types.Identical(mt.Key(), errT) && types.Identical(mt.Elem(), t.codeType):
@@ -105,23 +235,28 @@ func runC19(c *Ctx) {
 							c.Fatalf("role class->code table is ambiguous")
 						}
 						t.e2cVar = obj
-						c.parseE2C(t, cl)
+						if cl != nil {
+							c.parseE2C(t, cl)
+						}
 					case types.Identical(mt.Key(), t.codeType) && types.Identical(mt.Elem(), errT):
 						if t.c2eVar != nil {
 							c.Fatalf("role code->class table is ambiguous")
 						}
 						t.c2eVar = obj
-						c.parseC2E(t, cl)
+						if cl != nil {
+							c.parseC2E(t, cl)
+						}
 					}
 				}
 			}
 		}
 	}
-	if t.e2cVar == nil || t.c2eVar == nil {
-		c.Fatalf("role tables: class->code / code->class map literals not found in package errors")
+	if t.e2cVar != nil {
+		c.Role("table.class->code", t.e2cVar.Name(), t.e2cVar.Pos())
 	}
-	c.Role("table.class->code", t.e2cVar.Name(), t.e2cVar.Pos())
-	c.Role("table.code->class", t.c2eVar.Name(), t.c2eVar.Pos())
+	if t.c2eVar != nil {
+		c.Role("table.code->class", t.c2eVar.Name(), t.c2eVar.Pos())
+	}
 
 	fromFn := c.RequireFn(c.P.Func("errors", "FromGRPCError"), "errors.FromGRPCError")
 	wrapFn := c.RequireFn(c.P.Func("errors", "GRPCWrap"), "errors.GRPCWrap")
@@ -130,298 +265,821 @@ func runC19(c *Ctx) {
 	embedFn := c.RequireFn(c.P.Func("errors", "EmbedObject"), "errors.EmbedObject")
 	extractFn := c.RequireFn(c.P.Func("errors", "ExtractObject"), "errors.ExtractObject")
 
-	// fallback of FromGRPCError: the class returned on the miss edge of the table lookup
-	var fallback *types.Var
-	fallbackOK := true
-	var lookupOK bool
-	ir.Instrs(fromFn, func(in ssa.Instruction) {
-		if lk, ok := in.(*ssa.Lookup); ok && lk.CommaOk {
-			if g := globalOf(lk.X); g != nil && g.Object() == types.Object(t.c2eVar) {
-				if call, ok := lk.Index.(*ssa.Call); ok && ir.CalleeFullName(call) == "google.golang.org/grpc/status.Code" {
-					if len(call.Call.Args) == 1 && ir.Path(call.Call.Args[0]) == "p:err" {
-						lookupOK = true
-					}
-				}
-			}
-		}
-	})
-	for _, ret := range ir.Returns(fromFn) {
-		v := ir.Resolve(ret.Results[0])
-		// the hit edge returns the looked-up value; every other return is the fallback
-		if ex, ok := v.(*ssa.Extract); ok {
-			if _, isLk := ex.Tuple.(*ssa.Lookup); isLk && ex.Index == 0 {
-				// must be under the ok edge
-				okEdge := ir.HasFact(ret.Block(), func(f ir.Fact) bool {
-					f = f.StripNot()
-					e2, isEx := f.Cond.(*ssa.Extract)
-					return isEx && e2.Tuple == ex.Tuple && e2.Index == 1 && f.True
-				})
-				if !okEdge {
-					fallbackOK = false
-				}
-				continue
-			}
-		}
-		if g := globalOf(v); g != nil {
-			if gv, ok := g.Object().(*types.Var); ok {
-				if fallback != nil && fallback != gv {
-					fallbackOK = false
-				}
-				fallback = gv
-				continue
-			}
-		}
-		if ir.IsNilConst(v) {
-			fallback = nil
-			fallbackOK = false
-			c.Decide("C19.R1", fromFn, "fallback class", ret, false, "FromGRPCError returns nil for a code that is missing in the table: a non-OK code would map to no class")
-			continue
-		}
-		fallbackOK = false
+	// the executor follows the functions of the package (helpers of any depth), everything else is the environment.
+	// A package-level variable of type error stands for itself: distinct variables are distinct non-nil values (R3).
+	t.env = &sxEnv{
+		follow: func(fn *ssa.Function) bool { return fn.Pkg == t.sp },
+		token: func(g *ssa.Global) bool {
+			return g.Pkg == t.sp && types.Identical(g.Type().(*types.Pointer).Elem(), errT)
+		},
 	}
-	c.Decide("C19.R6", fromFn, "lookup c2e[status.Code(err)]", nil, lookupOK, "FromGRPCError does not index the code->class table with status.Code(err)")
-	if fallback == nil || !fallbackOK {
-		c.Decide("C19.R1", fromFn, "fallback class", nil, false, "the value FromGRPCError returns when the code is not in the table is not a single class variable")
-	} else {
-		c.Role("fallback class", fallback.Name(), fallback.Pos())
+	// R7 (part): the keys the package initialiser (and the builders it runs) puts into error-keyed maps
+	type initKey struct {
+		fn  *ssa.Function
+		in  ssa.Instruction
+		key sxVal
 	}
-	c2e := func(code int64) *types.Var {
-		if t.c2eHas[code] {
-			return t.c2e[code]
+	var initKeys []initKey
+	t.env.onMapKey = func(fn *ssa.Function, in ssa.Instruction, key sxVal) {
+		var m ssa.Value
+		switch x := in.(type) {
+		case *ssa.Lookup:
+			m = x.X
+		case *ssa.MapUpdate:
+			m = x.Map
 		}
-		return fallback
+		if mt, ok := m.Type().Underlying().(*types.Map); ok && ir.IsErrorType(mt.Key()) {
+			initKeys = append(initKeys, initKey{fn, in, key})
+		}
+	}
+	t.env.entered = map[*ssa.Function]bool{}
+	if err := sxInit(t.env, t.sp); err != nil {
+		if err == sxErrInitPanics {
+			c.Decide("C19.R1", t.sp.Func("init"), "the tables can be built", nil, false, "the initialiser of package errors panics while it builds the tables")
+			return
+		}
+		c.Fatalf("role tables: the initialiser of package errors could not be evaluated: %v", err)
+	}
+	initOnly := c19initOnly(c, t.sp, t.env.entered)
+	t.env.onMapKey, t.env.entered = nil, nil
+
+	global := func(v *types.Var) *ssa.Global {
+		g, _ := t.sp.Members[v.Name()].(*ssa.Global)
+		return g
+	}
+	classOf := func(v sxVal) (*types.Var, bool) { // a class variable, or nil
+		if sxIsNil(v) {
+			return nil, true
+		}
+		if g, ok := v.(sxGlob); ok {
+			if tv, ok := g.g.Object().(*types.Var); ok {
+				return tv, true
+			}
+		}
+		return nil, false
 	}
 
-	// R1a: class -> code -> class
-	var classes []*types.Var
-	for k := range t.e2c {
-		classes = append(classes, k)
-	}
-	sort.Slice(classes, func(i, j int) bool { return classes[i].Name() < classes[j].Name() })
-	for _, k := range classes {
-		code := t.e2c[k]
-		back := c2e(code)
-		ok := back == k
-		got := "nil"
-		if back != nil {
-			got = back.Name()
-		}
-		c.DecideAt("C19.R1", t.e2cVar.Name(), "class "+k.Name()+" round trip", t.e2cPos[k], ok,
-			fmt.Sprintf("class %s maps to code %s, which maps back to %s", k.Name(), t.codes[code], got))
-		// R2
-		c.DecideAt("C19.R2", t.e2cVar.Name(), "class "+k.Name()+" code not OK/Unknown", t.e2cPos[k],
-			t.codes[code] != "OK" && t.codes[code] != "Unknown",
-			fmt.Sprintf("class %s maps to %s: status.Error(OK) is nil and Unknown is what GRPCWrap treats as 'not wrapped'", k.Name(), t.codes[code]))
-	}
-	// R1b: every code maps to a class (non-nil) unless OK; OK maps to nil
+	// ---- c2e: FromGRPCError as a function of status.Code(err)
 	var codeVals []int64
 	for v := range t.codes {
 		codeVals = append(codeVals, v)
 	}
 	sort.Slice(codeVals, func(i, j int) bool { return codeVals[i] < codeVals[j] })
+	c2eVal := map[int64]*types.Var{}
+	c2eWhy := map[int64]string{} // undecidable results
+	consulted := false
+	pureOfCode := true
+	pureWhy := ""
+	for _, code := range append(append([]int64{}, codeVals...), c19OutOfRange) {
+		paths, err := t.inScenario(fromFn, c19scn{code: code}, nil)
+		for _, p := range paths {
+			for _, cl := range p.calls {
+				if c19isStatusCode(cl.name, cl.args, c19errParam(fromFn, 0)) {
+					consulted = true
+				}
+			}
+		}
+		v, why := c19single(paths, err)
+		if why == "" {
+			cv, ok := classOf(v)
+			if ok {
+				c2eVal[code] = cv
+				continue
+			}
+			why = "returns " + v.key() + ", which is neither a class variable nor nil"
+		}
+		c2eWhy[code] = why
+		pureOfCode = false
+		if pureWhy == "" {
+			pureWhy = why
+		}
+	}
+	c.Decide("C19.R6", fromFn, "lookup c2e[status.Code(err)]", nil, consulted && pureOfCode,
+		"the class FromGRPCError returns is not a function of status.Code(err) only: "+pureWhy)
+	c2eName := fromFn.Name()
+	c2eAt := fromFn.Pos()
+	if t.c2eVar != nil {
+		c2eName, c2eAt = t.c2eVar.Name(), t.c2eVar.Pos()
+	}
+	if fb, ok := c2eVal[c19OutOfRange]; ok {
+		if fb == nil {
+			c.Decide("C19.R1", fromFn, "fallback class", nil, false, "FromGRPCError returns nil for a code that is none of the 17 named ones: a non-OK code would map to no class")
+		} else {
+			c.Role("fallback class", fb.Name(), fb.Pos())
+		}
+	} else {
+		c.Undecided("C19.R1", fromFn, "fallback class", nil, "FromGRPCError for a code outside of the 17 named ones: "+c2eWhy[c19OutOfRange])
+	}
+
+	// ---- e2c: GRPCStatusCode of an uncoded error as a function of the class in its chain
+	asked := map[*ssa.Global]bool{}
+	defPaths, defErr := t.inScenario(codeFn, c19scn{code: codeUnknown}, asked)
+	defCode, defWhy := c19single(defPaths, defErr)
+	var classes []*types.Var
+	for g := range asked {
+		if tv, ok := g.Object().(*types.Var); ok {
+			classes = append(classes, tv)
+		}
+	}
+	sort.Slice(classes, func(i, j int) bool { return classes[i].Name() < classes[j].Name() })
+	e2cName := codeFn.Name()
+	e2cAt := codeFn.Pos()
+	if t.e2cVar != nil {
+		e2cName, e2cAt = t.e2cVar.Name(), t.e2cVar.Pos()
+	}
+	e2cVal := map[*types.Var]int64{}
+	e2cWhy := map[*types.Var]string{}
+	for _, k := range classes {
+		v, why := c19single(t.inScenario(codeFn, c19scn{code: codeUnknown, class: global(k)}, nil))
+		if why == "" {
+			if n, ok := sxAsInt(v); ok {
+				e2cVal[k] = n
+				continue
+			}
+			why = "returns " + v.key()
+		}
+		e2cWhy[k] = why
+	}
+	codeName := func(v int64) string {
+		if n, ok := t.codes[v]; ok {
+			return n
+		}
+		return fmt.Sprintf("Code(%d)", v)
+	}
+
+	// R1a: class -> code -> class; R2
+	for _, k := range classes {
+		pos := e2cAt
+		if p, ok := t.e2cPos[k]; ok {
+			pos = p
+		}
+		code, ok := e2cVal[k]
+		if !ok {
+			c.UndecidedAt("C19.R1", e2cName, "class "+k.Name()+" round trip", pos, "the code GRPCStatusCode gives an uncoded error of class "+k.Name()+" is not determined: "+e2cWhy[k])
+			c.UndecidedAt("C19.R2", e2cName, "class "+k.Name()+" code not OK/Unknown", pos, e2cWhy[k])
+			continue
+		}
+		back, known := c2eVal[code]
+		if _, named := t.codes[code]; !named {
+			back, known = c2eVal[c19OutOfRange]
+		}
+		if !known {
+			c.UndecidedAt("C19.R1", e2cName, "class "+k.Name()+" round trip", pos, "the class of code "+codeName(code)+" is not determined: "+c2eWhy[code])
+		} else {
+			got := "nil"
+			if back != nil {
+				got = back.Name()
+			}
+			c.DecideAt("C19.R1", e2cName, "class "+k.Name()+" round trip", pos, back == k,
+				fmt.Sprintf("class %s maps to code %s, which maps back to %s", k.Name(), codeName(code), got))
+		}
+		c.DecideAt("C19.R2", e2cName, "class "+k.Name()+" code not OK/Unknown", pos,
+			t.codes[code] != "OK" && t.codes[code] != "Unknown",
+			fmt.Sprintf("class %s maps to %s: status.Error(OK) is nil and Unknown is what GRPCWrap treats as 'not wrapped'", k.Name(), codeName(code)))
+	}
+	// R1b: every code maps to a class (non-nil) unless OK; OK maps to nil
 	for _, v := range codeVals {
 		name := t.codes[v]
-		back := c2e(v)
-		pos := t.c2eVar.Pos()
+		pos := c2eAt
 		if p, ok := t.c2ePos[v]; ok {
 			pos = p
 		}
+		construct := "code " + name + " -> class"
 		if name == "OK" {
-			c.DecideAt("C19.R1", t.c2eVar.Name(), "code OK -> nil", pos, back == nil, "codes.OK maps to a class: a successful call would look like an error class")
+			construct = "code OK -> nil"
+		}
+		back, known := c2eVal[v]
+		if !known {
+			c.UndecidedAt("C19.R1", c2eName, construct, pos, "the class of code "+name+" is not determined: "+c2eWhy[v])
 			continue
 		}
-		c.DecideAt("C19.R1", t.c2eVar.Name(), "code "+name+" -> class", pos, back != nil, "non-OK code "+name+" maps to nil")
+		if name == "OK" {
+			c.DecideAt("C19.R1", c2eName, construct, pos, back == nil, "codes.OK maps to a class: a successful call would look like an error class")
+			continue
+		}
+		c.DecideAt("C19.R1", c2eName, construct, pos, back != nil, "non-OK code "+name+" maps to nil")
 		// and if some class claims this code, the code must map back to it (covered by R1a); if two classes share a code, one of them fails R1a
 	}
 	c.R.Floor("C19.R1", 10+17)
 	c.R.Floor("C19.R2", 10)
 
-	// R3: independent classes
-	c.classIndependence(t, classes, fallback)
+	// R3: independent classes (every class the two mappings mention)
+	var rangeClasses []*types.Var
+	for _, v := range codeVals {
+		if k := c2eVal[v]; k != nil {
+			rangeClasses = append(rangeClasses, k)
+		}
+	}
+	c.classIndependence(t, classes, rangeClasses, c2eVal[c19OutOfRange])
 
-	// R4: GRPCWrap shape
+	// R7 for the functions only the package initialiser runs: their "caller" is the initialiser, the keys are known
+	for _, ik := range initKeys {
+		if ik.fn.Name() == "init" || !initOnly[ik.fn] {
+			continue // the initialiser itself and everything the API reaches is covered by the general rule below
+		}
+		_, isClass := classOf(ik.key)
+		c.Decide("C19.R7", ik.fn, "error-keyed table is built from class variables only", ik.in, isClass && !sxIsNil(ik.key),
+			"a builder run by the package initialiser uses "+ik.key.key()+" as the key of a map keyed by error: not a class variable")
+	}
+	c.errorKeyedMaps(initOnly)
+
+	// R4: GRPCWrap, scenario by scenario
 	{
-		var statusErr *ssa.Call
-		ir.Instrs(wrapFn, func(in ssa.Instruction) {
-			if call, ok := in.(*ssa.Call); ok && ir.CalleeFullName(call) == "google.golang.org/grpc/status.Error" {
-				statusErr = call
+		perr := c19errParam(wrapFn, 0).key()
+		okId, whyId := true, ""
+		for _, code := range append(append([]int64{}, codeVals...), c19OutOfRange) {
+			if code == codeUnknown {
+				continue
 			}
-		})
-		if statusErr == nil {
-			c.Decide("C19.R4", wrapFn, "status.Error(code, err.Error())", nil, false, "GRPCWrap does not build a status error")
-		} else {
-			msg := ir.Resolve(statusErr.Call.Args[1])
-			okMsg := false
-			if mc, ok := msg.(*ssa.Call); ok && mc.Call.IsInvoke() && mc.Call.Method.Name() == "Error" && ir.Path(mc.Call.Value) == "p:err" {
-				okMsg = true
-			}
-			c.Decide("C19.R4", wrapFn, "message = err.Error()", statusErr, okMsg, "the status message is not err.Error() of the wrapped error: an embedded object or the text is lost")
-			codeArg := ir.Resolve(statusErr.Call.Args[0])
-			okCode := false
-			if cc, ok := codeArg.(*ssa.Call); ok && ir.StaticCallee(cc) == codeFn && len(cc.Call.Args) == 1 && ir.Path(cc.Call.Args[0]) == "p:err" {
-				okCode = true
-			}
-			c.Decide("C19.R4", wrapFn, "code = GRPCStatusCode(err)", statusErr, okCode, "the status code is not GRPCStatusCode(err)")
-			// idempotence: every return that is not the status error returns the parameter, under code != Unknown
-			for _, ret := range ir.Returns(wrapFn) {
-				v := ir.Resolve(ret.Results[0])
-				if v == ssa.Value(statusErr) {
-					continue
+			outs, why := c19outs(t.inScenario(wrapFn, c19scn{code: code}, nil))
+			for _, o := range outs {
+				// the argument itself; nil for the nil argument is the argument too
+				if o.val.key() != perr && !(sxIsNil(o.val) && o.nilParam == perr) {
+					why = "returns " + o.val.key()
 				}
-				okId := ir.Path(v) == "p:err" && hasFactCmp(ret.Block(), func(cm ir.Cmp) bool {
-					if cm.Op != token.NEQ {
-						return false
-					}
-					x, y := ir.Resolve(cm.X), ir.Resolve(cm.Y)
-					isCode := func(v ssa.Value) bool {
-						cl, ok := v.(*ssa.Call)
-						return ok && ir.CalleeFullName(cl) == "google.golang.org/grpc/status.Code"
-					}
-					isUnknown := func(v ssa.Value) bool {
-						n, ok := ir.ConstInt(v)
-						return ok && t.codes[n] == "Unknown"
-					}
-					return (isCode(x) && isUnknown(y)) || (isCode(y) && isUnknown(x))
-				})
-				c.Decide("C19.R4", wrapFn, "already coded error returned unchanged", ret, okId, "GRPCWrap returns something else than its argument for an already coded error (not idempotent)")
+			}
+			if why != "" && okId {
+				okId, whyId = false, fmt.Sprintf("for an error with the code %s GRPCWrap %s", codeName(code), why)
 			}
 		}
-		// marker shared by Embed/Extract
-		// the marker is the constant ExtractObject splits the message by; EmbedObject must use the same constant
-		embedMarker := c.constStringsUsed(embedFn)
-		shared := ""
-		ir.Instrs(extractFn, func(in ssa.Instruction) {
-			if call, ok := in.(*ssa.Call); ok && ir.CalleeFullName(call) == "strings.Split" {
-				if cv := ir.ConstVal(call.Call.Args[1]); cv != nil && cv.Kind() == constant.String && embedMarker[constant.StringVal(cv)] {
-					shared = constant.StringVal(cv)
+		built, okMsg, okCode := true, true, true
+		whyBuilt, whyMsg, whyCode := "", "", ""
+		scns := []c19scn{{code: codeUnknown}}
+		for _, k := range classes {
+			scns = append(scns, c19scn{code: codeUnknown, class: global(k)})
+		}
+		for _, s := range scns {
+			want, wantWhy := defCode, defWhy
+			cls := "no class"
+			if s.class != nil {
+				cls = "class " + s.class.Name()
+				if n, ok := e2cVal[s.class.Object().(*types.Var)]; ok {
+					want, wantWhy = sxInt(n), ""
+				} else {
+					want, wantWhy = nil, e2cWhy[s.class.Object().(*types.Var)]
+				}
+			}
+			paths, err := t.inScenario(wrapFn, s, nil)
+			if err != nil {
+				built, whyBuilt = false, err.Error()
+				continue
+			}
+			for _, p := range paths {
+				var res sxVal = sxNil()
+				if !p.panicked && len(p.ret) == 1 {
+					res = p.ret[0]
+				}
+				se := sxIsTerm(res, "call:"+c19StatusError)
+				if se == nil || len(se.args) != 2 {
+					built, whyBuilt = false, fmt.Sprintf("for an uncoded error (%s) GRPCWrap gives %s", cls, p.String())
+					continue
+				}
+				if m := sxIsTerm(se.args[1], "invoke:Error"); m == nil || len(m.args) != 1 || m.args[0].key() != perr {
+					okMsg, whyMsg = false, "the message is "+se.args[1].key()
+				}
+				if want == nil {
+					okCode, whyCode = false, "GRPCStatusCode is not determined: "+wantWhy
+				} else if se.args[0].key() != want.key() {
+					okCode, whyCode = false, fmt.Sprintf("for an uncoded error (%s) the code is %s, GRPCStatusCode gives %s", cls, se.args[0].key(), want.key())
+				}
+			}
+		}
+		at := c19callSite(wrapFn, c19StatusError)
+		if !built {
+			c.Decide("C19.R4", wrapFn, "status.Error(code, err.Error())", at, false, "GRPCWrap does not build a status error for every uncoded error: "+whyBuilt)
+		} else {
+			c.Decide("C19.R4", wrapFn, "message = err.Error()", at, okMsg, "the status message is not err.Error() of the wrapped error: an embedded object or the text is lost: "+whyMsg)
+			c.Decide("C19.R4", wrapFn, "code = GRPCStatusCode(err)", at, okCode, "the status code is not GRPCStatusCode(err): "+whyCode)
+		}
+		c.Decide("C19.R4", wrapFn, "already coded error returned unchanged", nil, okId, "GRPCWrap returns something else than its argument for an already coded error (not idempotent): "+whyId)
+	}
+
+	// R4: the marker protocol of EmbedObject / ExtractObject
+	c.embedExtract(t, embedFn, extractFn)
+
+	// R5: Is(err, target) is "the chain of err holds target, or the class of the code of err is target", decided in
+	// every scenario {status.Code(err) = each code} x {target = each class} x {errors.Is(err, target) true / false}
+	{
+		perr, ptarget := c19errParam(isFn, 0).key(), c19errParam(isFn, 1).key()
+		seenClass := map[*types.Var]bool{}
+		var targets []*types.Var
+		for _, k := range append(append(append([]*types.Var{}, classes...), rangeClasses...), c2eVal[c19OutOfRange]) {
+			if k != nil && !seenClass[k] {
+				seenClass[k] = true
+				targets = append(targets, k)
+			}
+		}
+		direct, viaCode := len(targets) > 0, len(targets) > 0
+		whyDirect, whyVia := "no class to test with", "no class to test with"
+		for _, code := range append(append([]int64{}, codeVals...), c19OutOfRange) {
+			byCode, known := c2eVal[code]
+			if !known {
+				continue // reported by R1 / R6
+			}
+			for _, target := range targets {
+				for _, inChain := range []bool{false, true} {
+					tg := global(target)
+					t.env.call = func(name string, args []sxVal) sxVal {
+						switch {
+						case c19isStatusCode(name, args, c19errParam(isFn, 0)):
+							return sxInt(code)
+						case name == "errors.Is" && len(args) == 2 && args[1].key() == ptarget:
+							if args[0].key() == perr {
+								return sxBool(inChain)
+							}
+							if g, ok := args[0].(sxGlob); ok {
+								return sxBool(g.g == tg)
+							}
+							if sxIsNil(args[0]) {
+								return sxBool(false)
+							}
+						}
+						return nil
+					}
+					t.env.nonNil = func(v sxVal) bool {
+						return v.key() == ptarget || (v.key() == perr && t.codes[code] != "OK")
+					}
+					outs, why := c19outs(sxExplore(t.env, isFn, []sxVal{c19errParam(isFn, 0), c19errParam(isFn, 1)}))
+					t.env.call, t.env.nonNil = nil, nil
+					want := inChain || byCode == target
+					for _, o := range outs {
+						if o.nilParam == perr && inChain {
+							continue // not a scenario: the chain of the nil error holds nothing
+						}
+						if got, ok := sxAsBool(o.val); !ok {
+							why = "gives " + o.val.key()
+						} else if got != want {
+							why = fmt.Sprintf("is %v", got)
+						}
+					}
+					if why == "" {
+						continue
+					}
+					why = fmt.Sprintf("Is(err, %s) for an error with the code %s whose chain %s %s: %s", target.Name(), codeName(code),
+						map[bool]string{true: "holds", false: "does not hold"}[inChain], target.Name(), why)
+					if !inChain && byCode == target {
+						if viaCode {
+							viaCode, whyVia = false, why
+						}
+					} else if direct {
+						direct, whyDirect = false, why
+					}
+				}
+			}
+		}
+		c.Decide("C19.R5", isFn, "errors.Is(err,target)", nil, direct, "Is is not true exactly when the chain or the code class matches: "+whyDirect)
+		c.Decide("C19.R5", isFn, "errors.Is(FromGRPCError(err),target)", nil, viaCode, "Is does not fall back to the class derived from the gRPC code: "+whyVia)
+	}
+
+	// R6: GRPCStatusCode
+	{
+		okRange, whyRange := len(classes) > 0, "GRPCStatusCode never tests errors.Is(err, <class>)"
+		if defWhy != "" {
+			okRange, whyRange = false, "for an uncoded error of no class: "+defWhy
+		}
+		for _, k := range classes {
+			if _, ok := e2cVal[k]; !ok && okRange {
+				okRange, whyRange = false, "for an uncoded error of class "+k.Name()+": "+e2cWhy[k]
+			}
+		}
+		// with a class->code table: every entry is found, and with its code
+		rangeDecided := true
+		if t.e2cVar != nil && okRange {
+			entries, concrete := sxMapEntries(sxGlobalValue(t.env, global(t.e2cVar)))
+			if !concrete {
+				c.Undecided("C19.R6", codeFn, "range class->code with errors.Is", nil, "the content of the class->code table "+t.e2cVar.Name()+" is not known")
+				rangeDecided = false
+			}
+			for _, e := range entries {
+				k, isClass := classOf(e.k)
+				code, isCode := sxAsInt(e.v)
+				switch {
+				case !isClass || k == nil || !isCode:
+					okRange, whyRange = false, "table entry "+e.k.key()+": "+e.v.key()+" is not <class variable>: <code>"
+				case !asked[global(k)]:
+					okRange, whyRange = false, "the class "+k.Name()+" of the table is never tested with errors.Is"
+				default:
+					if got, ok := e2cVal[k]; ok && got != code {
+						okRange, whyRange = false, fmt.Sprintf("an uncoded error of class %s gets the code %s, the table says %s", k.Name(), codeName(got), codeName(code))
+					}
+				}
+			}
+			if concrete && len(entries) != len(classes) && okRange {
+				okRange, whyRange = false, "GRPCStatusCode tests classes that are not in the class->code table"
+			}
+		}
+		if rangeDecided {
+			c.Decide("C19.R6", codeFn, "range class->code with errors.Is", nil, okRange, "GRPCStatusCode does not find the class of a wrapped error by errors.Is over the class->code table: "+whyRange)
+		}
+		// a coded error keeps its code
+		okCoded, whyCoded := true, ""
+		for _, code := range append(append([]int64{}, codeVals...), c19OutOfRange) {
+			if code == codeUnknown {
+				continue
+			}
+			v, why := c19single(t.inScenario(codeFn, c19scn{code: code}, nil))
+			if why == "" {
+				if n, ok := sxAsInt(v); !ok || n != code {
+					why = "returns " + v.key()
+				}
+			}
+			if why != "" && okCoded {
+				okCoded, whyCoded = false, fmt.Sprintf("for an error with the code %s GRPCStatusCode %s", codeName(code), why)
+			}
+		}
+		c.Decide("C19.R6", codeFn, "coded error keeps its code", nil, okCoded, "GRPCStatusCode does not return status.Code(err) for an already coded error: "+whyCoded)
+	}
+}
+
+// c19isStatusCode: the call is status.Code(err), or its definition status.Convert(err).Code().
+func c19isStatusCode(name string, args []sxVal, perr sxVal) bool {
+	if len(args) != 1 {
+		return false
+	}
+	if name == c19StatusCode {
+		return args[0].key() == perr.key()
+	}
+	if strings.HasSuffix(name, "/status.Status).Code") {
+		cv := sxIsTerm(args[0], "call:google.golang.org/grpc/status.Convert")
+		return cv != nil && len(cv.args) == 1 && cv.args[0].key() == perr.key()
+	}
+	return false
+}
+
+// c19errParam returns the symbolic value of the n-th parameter of type error of fn (whatever its name is).
+func c19errParam(fn *ssa.Function, n int) sxVal {
+	for _, p := range fn.Params {
+		if ir.IsErrorType(p.Type()) {
+			if n == 0 {
+				return sxParam(p.Name())
+			}
+			n--
+		}
+	}
+	return sxT("no such parameter")
+}
+
+// c19callSite returns the first call of the named function in fn (for the position of an obligation), or nil.
+func c19callSite(fn *ssa.Function, name string) ssa.Instruction {
+	var res ssa.Instruction
+	ir.Instrs(fn, func(in ssa.Instruction) {
+		if call, ok := in.(*ssa.Call); ok && res == nil && ir.CalleeFullName(call) == name {
+			res = call
+		}
+	})
+	return res
+}
+
+// c19initOnly returns the functions of the package that run only as part of the package initialiser: their bodies were
+// executed when the initialiser was evaluated (ran), they are not reachable by static calls from an exported function
+// or method, and they are never used as a value (so nothing can call them later).
+func c19initOnly(c *Ctx, sp *ssa.Package, ran map[*ssa.Function]bool) map[*ssa.Function]bool {
+	all := c.P.FuncsOf("errors")
+	escapes := map[*ssa.Function]bool{}
+	callees := map[*ssa.Function][]*ssa.Function{}
+	for _, fn := range all {
+		ir.Instrs(fn, func(in ssa.Instruction) {
+			var callee ssa.Value
+			if ci, ok := in.(ssa.CallInstruction); ok && !ci.Common().IsInvoke() {
+				callee = ci.Common().Value
+			}
+			for _, op := range in.Operands(nil) {
+				if op == nil || *op == nil {
+					continue
+				}
+				var f *ssa.Function
+				switch x := (*op).(type) {
+				case *ssa.Function:
+					f = x
+				case *ssa.MakeClosure:
+					f, _ = x.Fn.(*ssa.Function)
+				}
+				if f == nil {
+					continue
+				}
+				if _, isCall := in.(*ssa.Call); isCall && *op == callee {
+					callees[fn] = append(callees[fn], f)
+				} else {
+					escapes[f] = true
+				}
+			}
+			if mc, ok := in.(*ssa.MakeClosure); ok {
+				if f, ok := mc.Fn.(*ssa.Function); ok {
+					escapes[f] = true
 				}
 			}
 		})
-		c.Decide("C19.R4", embedFn, "marker shared with ExtractObject", nil, shared != "", "EmbedObject and ExtractObject do not use one common marker constant")
-		if shared != "" {
-			// Embed: fmt.Errorf("%s%s%s: %w", marker, payload, marker, err)
-			okEmbed := false
-			ir.Instrs(embedFn, func(in ssa.Instruction) {
-				call, ok := in.(*ssa.Call)
-				if !ok || ir.CalleeFullName(call) != "fmt.Errorf" {
-					return
+	}
+	reach := map[*ssa.Function]bool{}
+	var visit func(fn *ssa.Function)
+	visit = func(fn *ssa.Function) {
+		if fn == nil || reach[fn] {
+			return
+		}
+		reach[fn] = true
+		for _, f := range callees[fn] {
+			visit(f)
+		}
+	}
+	for _, fn := range all {
+		if fn.Name() != "init" && fn.Parent() == nil && token.IsExported(fn.Name()) {
+			visit(fn)
+		}
+	}
+	res := map[*ssa.Function]bool{}
+	for _, fn := range all {
+		if ran[fn] && !reach[fn] && !escapes[fn] && fn.Name() != "init" {
+			res[fn] = true
+		}
+	}
+	return res
+}
+
+// embedExtract is the marker part of C19.R4. Both functions are executed symbolically (helpers followed); what they
+// do to the message is read from the calls into strings / fmt / encoding/json on the paths.
+func (c *Ctx) embedExtract(t *c19tables, embedFn, extractFn *ssa.Function) {
+	isConv := func(name string) bool { // zero-copy string<->[]byte conversions of golibs/cast
+		i := strings.LastIndex(name, ".")
+		return i > 0 && strings.HasSuffix(name[:i], "/cast")
+	}
+	t.env.call, t.env.nonNil = nil, nil
+
+	// ---- ExtractObject
+	marker, okExtract, whyExtract := "", false, ""
+	var xargs []sxVal
+	for _, p := range extractFn.Params {
+		xargs = append(xargs, sxParam(p.Name()))
+	}
+	var perr, pobj sxVal
+	for i, p := range extractFn.Params {
+		if ir.IsErrorType(p.Type()) {
+			perr = xargs[i]
+		} else {
+			pobj = xargs[i]
+		}
+	}
+	xpaths, xerr := sxExplore(t.env, extractFn, xargs)
+	if os.Getenv("VERIF_C19_DEBUG") != "" {
+		fmt.Fprintf(os.Stderr, "C19 ExtractObject err=%v\n%s\n", xerr, sxDump(xpaths))
+	}
+	switch {
+	case xerr != nil:
+		whyExtract = xerr.Error()
+	case perr == nil || pobj == nil:
+		whyExtract = "unexpected signature"
+	default:
+		msg := sxT("invoke:Error", perr)
+		// the paths that reach json.Unmarshal, and the decisions taken before it
+		var pre []string
+		var um *sxCall
+		var umPath *sxPath
+		n := 0
+		for _, p := range xpaths {
+			for i := range p.calls {
+				if p.calls[i].name != "encoding/json.Unmarshal" {
+					continue
 				}
-				format := ir.ConstVal(call.Call.Args[0])
-				if format == nil || format.Kind() != constant.String {
-					return
-				}
-				fs := constant.StringVal(format)
-				args := variadicArgs(call.Call.Args[1])
-				verbs := formatVerbs(fs)
-				if len(args) != len(verbs) || len(args) < 4 {
-					return
-				}
-				var markerIdx []int
-				wIdx := -1
-				for i, a := range args {
-					if cv := ir.ConstVal(ir.Resolve(a)); cv != nil && cv.Kind() == constant.String && constant.StringVal(cv) == shared {
-						markerIdx = append(markerIdx, i)
+				var ds []string
+				for _, d := range p.conds {
+					if d.ncalls <= i {
+						ds = append(ds, d.String())
 					}
-					if verbs[i] == 'w' && ir.Path(a) == "p:err" {
-						wIdx = i
+				}
+				sort.Strings(ds)
+				if n > 0 && strings.Join(ds, " && ") != strings.Join(pre, " && ") {
+					whyExtract = "json.Unmarshal is reached under different conditions: [" + strings.Join(ds, " && ") + "] and [" + strings.Join(pre, " && ") + "]"
+				}
+				pre, um, umPath = ds, &p.calls[i], p
+				n++
+				break
+			}
+		}
+		if n == 0 {
+			whyExtract = "json.Unmarshal is never reached"
+		}
+		if whyExtract == "" {
+			// remove the nil test of the error
+			var conds []string
+			for _, d := range pre {
+				if d == "!"+sxT("==", sxNil(), perr).key() || d == "!"+sxT("==", perr, sxNil()).key() {
+					continue
+				}
+				conds = append(conds, d)
+			}
+			payload := sxStripConv(um.args[0], isConv)
+			target := um.args[1]
+			sepOf := func(cl sxCall, name string, subject sxVal) (string, bool) {
+				if cl.name != name || len(cl.args) != 2 || cl.args[0].key() != subject.key() {
+					return "", false
+				}
+				return sxAsString(cl.args[1])
+			}
+			matched := false
+			for _, cl := range umPath.calls {
+				// form A: parts := strings.Split(msg, marker); len(parts) == 3; parts[1]
+				if m, ok := sepOf(cl, "strings.Split", msg); ok && m != "" {
+					marker = m
+					want := []string{sxT("==", sxInt(3), sxT("len", cl.res)).key()}
+					if strings.Join(conds, " && ") == strings.Join(want, " && ") &&
+						payload.key() == sxT("load", sxT("idx", cl.res, sxInt(1))).key() {
+						matched = true
 					}
 				}
-				if len(markerIdx) == 2 && markerIdx[1]-markerIdx[0] == 2 && wIdx > markerIdx[1] && strings.HasPrefix(fs, "%s%s%s") {
-					okEmbed = true
-				}
-			})
-			c.Decide("C19.R4", embedFn, "marker payload marker + %w err", nil, okEmbed, "EmbedObject does not produce <marker><json><marker>: %w err")
-			// Extract: strings.Split(err.Error(), marker) and len(parts) != 3
-			okSplit, okLen := false, false
-			ir.Instrs(extractFn, func(in ssa.Instruction) {
-				if call, ok := in.(*ssa.Call); ok && ir.CalleeFullName(call) == "strings.Split" {
-					if cv := ir.ConstVal(call.Call.Args[1]); cv != nil && constant.StringVal(cv) == shared {
-						okSplit = true
-					}
-				}
-				if b, ok := in.(*ssa.BinOp); ok && (b.Op == token.NEQ || b.Op == token.EQL) {
-					if n, isC := ir.ConstInt(b.Y); isC && n == 3 {
-						if cl, ok := b.X.(*ssa.Call); ok && builtinCall(cl, "len") != nil {
-							okLen = true
+				// form B: _, rest, found := strings.Cut(msg, marker); body, tail, found2 := strings.Cut(rest, marker);
+				// found && found2 && no marker in tail; body
+				if m, ok := sepOf(cl, "strings.Cut", msg); ok && m != "" {
+					marker = m
+					rest := sxT("extract#1", cl.res)
+					for _, cl2 := range umPath.calls {
+						if m2, ok := sepOf(cl2, "strings.Cut", rest); !ok || m2 != m {
+							continue
+						}
+						tail := sxT("extract#1", cl2.res)
+						base := []string{sxT("extract#2", cl.res).key(), sxT("extract#2", cl2.res).key()}
+						idx := sxT("call:strings.Index", tail, sxStr(m))
+						for _, third := range []string{
+							"!" + sxT("call:strings.Contains", tail, sxStr(m)).key(),
+							sxT("<", idx, sxInt(0)).key(),
+							sxT("==", sxInt(-1), idx).key(),
+						} {
+							want := append(append([]string{}, base...), third)
+							sort.Strings(want)
+							if strings.Join(conds, " && ") == strings.Join(want, " && ") && payload.key() == sxT("extract#0", cl2.res).key() {
+								matched = true
+							}
 						}
 					}
 				}
-			})
-			c.Decide("C19.R4", extractFn, "split by marker into exactly 3 parts", nil, okSplit && okLen, "ExtractObject does not split the message by the marker into exactly three parts")
-		}
-	}
-
-	// R5: Is
-	{
-		direct, viaCode := false, false
-		ir.Instrs(isFn, func(in ssa.Instruction) {
-			call, ok := in.(*ssa.Call)
-			if !ok || ir.CalleeFullName(call) != "errors.Is" {
-				return
 			}
-			a0, a1 := call.Call.Args[0], call.Call.Args[1]
-			if ir.Path(a1) != "p:target" {
-				return
-			}
-			if ir.Path(a0) == "p:err" {
-				direct = true
-			}
-			if fc, ok := ir.Resolve(a0).(*ssa.Call); ok && ir.StaticCallee(fc) == fromFn && ir.Path(fc.Call.Args[0]) == "p:err" {
-				viaCode = true
-			}
-		})
-		c.Decide("C19.R5", isFn, "errors.Is(err,target)", nil, direct, "Is does not consult the error chain itself")
-		c.Decide("C19.R5", isFn, "errors.Is(FromGRPCError(err),target)", nil, viaCode, "Is does not fall back to the class derived from the gRPC code")
-		// the result must be true when either is true: no return of constant false while one of them holds is checked by shape: Is returns only call results or true
-		for _, ret := range ir.Returns(isFn) {
-			v := ir.Resolve(ret.Results[0])
-			if cv := ir.ConstVal(v); cv != nil && cv.Kind() == constant.Bool && !constant.BoolVal(cv) {
-				c.Decide("C19.R5", isFn, "no constant false", ret, false, "Is returns a constant false on some path")
+			switch {
+			case marker == "":
+				whyExtract = "the message err.Error() is not separated by a constant marker (strings.Split / strings.Cut)"
+			case !matched:
+				whyExtract = "json.Unmarshal(" + um.args[0].key() + ") is reached when [" + strings.Join(conds, " && ") + "]: that is not 'the message holds exactly two markers' with the text between them"
+			case target.key() != pobj.key():
+				whyExtract = "json.Unmarshal does not fill the object passed in"
+			default:
+				okExtract = true
 			}
 		}
 	}
 
-	// R6: GRPCStatusCode ranges over e2c with errors.Is
-	{
-		okRange := false
-		ir.Instrs(codeFn, func(in ssa.Instruction) {
-			rg, ok := in.(*ssa.Range)
-			if !ok {
-				return
+	// ---- EmbedObject
+	var eargs []sxVal
+	var eerr, eobj sxVal
+	for _, p := range embedFn.Params {
+		a := sxParam(p.Name())
+		eargs = append(eargs, a)
+		if ir.IsErrorType(p.Type()) {
+			eerr = a
+		} else {
+			eobj = a
+		}
+	}
+	epaths, eerror := sxExplore(t.env, embedFn, eargs)
+	if os.Getenv("VERIF_C19_DEBUG") != "" {
+		fmt.Fprintf(os.Stderr, "C19 EmbedObject err=%v\n%s\n", eerror, sxDump(epaths))
+	}
+	shared, okEmbed, whyEmbed := false, false, ""
+	nEmbed := 0
+	if eerror != nil {
+		whyEmbed = eerror.Error()
+	} else if eerr == nil || eobj == nil {
+		whyEmbed = "unexpected signature"
+	} else {
+		okEmbed = true
+		for _, p := range epaths {
+			if p.panicked || len(p.ret) != 1 || p.ret[0].key() == eerr.key() {
+				continue // refused inputs, and the object that cannot be marshalled: the error as it is
 			}
-			if g := globalOf(rg.X); g == nil || g.Object() != types.Object(t.e2cVar) {
-				return
+			nEmbed++
+			segs, why := c19message(p.ret[0])
+			if why != "" {
+				okEmbed, whyEmbed = false, why
+				continue
 			}
-			// the loop body calls errors.Is(err, key) and returns value on its true edge
-			ir.Instrs(codeFn, func(in2 ssa.Instruction) {
-				call, ok := in2.(*ssa.Call)
-				if !ok || ir.CalleeFullName(call) != "errors.Is" || ir.Path(call.Call.Args[0]) != "p:err" {
-					return
+			// every constant piece of the text that holds the marker
+			count := 0
+			for _, s := range segs {
+				if s.val == nil {
+					count += strings.Count(s.lit, marker)
 				}
-				key := ir.Resolve(call.Call.Args[1])
-				if !extractOfNext(key, rg, 1) {
-					return
+			}
+			if marker != "" && count > 0 {
+				shared = true
+			}
+			ok := marker != "" && len(segs) >= 4 && count == 2 &&
+				segs[0].val == nil && segs[0].lit == marker &&
+				segs[1].val != nil && segs[1].verb != 'w' && strings.Contains(sxStripConv(segs[1].val, isConv).key(), eobj.key()) &&
+				segs[2].val == nil && strings.HasPrefix(segs[2].lit, marker)
+			wrapped := false
+			for _, s := range segs[min(3, len(segs)):] {
+				if s.val != nil && s.verb == 'w' && s.val.key() == eerr.key() {
+					wrapped = true
 				}
-				for _, ret := range ir.Returns(codeFn) {
-					if extractOfNext(ir.Resolve(ret.Results[0]), rg, 2) && ir.HasFact(ret.Block(), func(f ir.Fact) bool {
-						f = f.StripNot()
-						return f.Cond == ssa.Value(call) && f.True
-					}) {
-						okRange = true
-					}
-				}
-			})
-		})
-		c.Decide("C19.R6", codeFn, "range class->code with errors.Is", nil, okRange, "GRPCStatusCode does not find the class of a wrapped error by errors.Is over the class->code table")
-		// a coded error keeps its code: return status.Code(err) under code != Unknown
-		okCoded := false
-		for _, ret := range ir.Returns(codeFn) {
-			if cl, ok := ir.Resolve(ret.Results[0]).(*ssa.Call); ok && ir.CalleeFullName(cl) == "google.golang.org/grpc/status.Code" && ir.Path(cl.Call.Args[0]) == "p:err" {
-				okCoded = true
+			}
+			if !ok || !wrapped {
+				okEmbed, whyEmbed = false, "the message is "+c19segString(segs)
 			}
 		}
-		c.Decide("C19.R6", codeFn, "coded error keeps its code", nil, okCoded, "GRPCStatusCode does not return status.Code(err) for an already coded error")
+		if nEmbed == 0 {
+			okEmbed, whyEmbed = false, "EmbedObject never builds a new error"
+		}
 	}
+	c.Decide("C19.R4", embedFn, "marker shared with ExtractObject", nil, marker != "" && shared,
+		"EmbedObject and ExtractObject do not use one common marker constant: "+whyExtract+" "+whyEmbed)
+	if marker != "" && shared {
+		c.Decide("C19.R4", embedFn, "marker payload marker + %w err", nil, okEmbed, "EmbedObject does not produce <marker><json><marker>: %w err: "+whyEmbed)
+		c.Decide("C19.R4", extractFn, "split by marker into exactly 3 parts", nil, okExtract, "ExtractObject does not split the message by the marker into exactly three parts: "+whyExtract)
+	}
+}
+
+// c19seg is a piece of a formatted message: constant text, or a value printed by a verb.
+type c19seg struct {
+	lit  string
+	val  sxVal
+	verb byte
+}
+
+func c19segString(segs []c19seg) string {
+	var s []string
+	for _, g := range segs {
+		if g.val == nil {
+			s = append(s, fmt.Sprintf("%q", g.lit))
+		} else {
+			s = append(s, "%"+string(g.verb)+"<"+g.val.key()+">")
+		}
+	}
+	return strings.Join(s, " ")
+}
+
+// c19message expands the term fmt.Errorf(format, args...) into the sequence of pieces of the message: the constant
+// text of the format, string constants and concatenations printed by %s / %v are spliced in.
+func c19message(v sxVal) ([]c19seg, string) {
+	call := sxIsTerm(v, "call:fmt.Errorf")
+	if call == nil || len(call.args) != 2 {
+		return nil, "EmbedObject returns " + v.key() + ", not fmt.Errorf(...)"
+	}
+	format, ok := sxAsString(call.args[0])
+	if !ok {
+		return nil, "the format of fmt.Errorf is not a constant"
+	}
+	args, ok := sxSliceElems(call.args[1])
+	if !ok {
+		return nil, "the arguments of fmt.Errorf are not a list"
+	}
+	var segs []c19seg
+	lit := func(s string) {
+		if s == "" {
+			return
+		}
+		if n := len(segs); n > 0 && segs[n-1].val == nil {
+			segs[n-1].lit += s
+			return
+		}
+		segs = append(segs, c19seg{lit: s})
+	}
+	next := 0
+	for i := 0; i < len(format); i++ {
+		if format[i] != '%' {
+			lit(format[i : i+1])
+			continue
+		}
+		i++
+		plain := true
+		for i < len(format) && strings.IndexByte("+-# 0123456789.[]*", format[i]) >= 0 {
+			plain = false
+			i++
+		}
+		if i >= len(format) {
+			return nil, "malformed format"
+		}
+		if format[i] == '%' {
+			lit("%")
+			continue
+		}
+		if next >= len(args) {
+			return nil, "more verbs than arguments"
+		}
+		a := args[next]
+		next++
+		verb := format[i]
+		if plain && (verb == 's' || verb == 'v') {
+			for _, piece := range sxConcat(a) {
+				if s, ok := sxAsString(piece); ok {
+					lit(s)
+				} else {
+					segs = append(segs, c19seg{val: piece, verb: verb})
+				}
+			}
+			continue
+		}
+		segs = append(segs, c19seg{val: a, verb: verb})
+	}
+	if next != len(args) {
+		return nil, "more arguments than verbs"
+	}
+	return segs, ""
 }
 
 func extractOfNext(v ssa.Value, rg *ssa.Range, idx int) bool {
@@ -446,49 +1104,30 @@ func globalOf(v ssa.Value) *ssa.Global {
 	return nil
 }
 
+// parseE2C records the positions of the entries of a class->code table that is a literal (for the reports only: the
+// content of the table is what the package initialiser builds).
 func (c *Ctx) parseE2C(t *c19tables, cl *ast.CompositeLit) {
 	for _, el := range cl.Elts {
 		kv, ok := el.(*ast.KeyValueExpr)
 		if !ok {
-			c.Fatalf("class->code table: element without key")
-		}
-		cls := c.classVar(t, kv.Key)
-		code, okc := c.codeConst(t, kv.Value)
-		if cls == nil || !okc {
-			c.UndecidedAt("C19.R1", "class->code table", "entry", kv.Pos(), "table entry is not <class variable>: <codes constant>")
 			continue
 		}
-		if _, dup := t.e2c[cls]; dup {
-			c.DecideAt("C19.R1", "class->code table", "duplicate class "+cls.Name(), kv.Pos(), false, "class listed twice")
+		if cls := c.classVar(t, kv.Key); cls != nil {
+			t.e2cPos[cls] = kv.Pos()
 		}
-		t.e2c[cls] = code
-		t.e2cPos[cls] = kv.Pos()
 	}
 }
 
+// parseC2E is parseE2C for the code->class table.
 func (c *Ctx) parseC2E(t *c19tables, cl *ast.CompositeLit) {
 	for _, el := range cl.Elts {
 		kv, ok := el.(*ast.KeyValueExpr)
 		if !ok {
-			c.Fatalf("code->class table: element without key")
-		}
-		code, okc := c.codeConst(t, kv.Key)
-		if !okc {
-			c.UndecidedAt("C19.R1", "code->class table", "entry", kv.Pos(), "table key is not a codes constant")
 			continue
 		}
-		t.c2eHas[code] = true
-		t.c2ePos[code] = kv.Pos()
-		if id, ok := ast.Unparen(kv.Value).(*ast.Ident); ok && id.Name == "nil" && t.pk.TypesInfo.Uses[id] == types.Universe.Lookup("nil") {
-			t.c2e[code] = nil
-			continue
+		if code, okc := c.codeConst(t, kv.Key); okc {
+			t.c2ePos[code] = kv.Pos()
 		}
-		cls := c.classVar(t, kv.Value)
-		if cls == nil {
-			c.UndecidedAt("C19.R1", "code->class table", "entry", kv.Pos(), "table value is not a class variable or nil")
-			continue
-		}
-		t.c2e[code] = cls
 	}
 }
 
@@ -513,15 +1152,15 @@ func (c *Ctx) codeConst(t *c19tables, e ast.Expr) (int64, bool) {
 	return v, exact
 }
 
-// classIndependence is C19.R3.
-func (c *Ctx) classIndependence(t *c19tables, classes []*types.Var, fallback *types.Var) {
+// classIndependence is C19.R3: classes are the classes of the class->code direction, others the classes the
+// code->class direction yields, fallback the class of an unlisted code.
+func (c *Ctx) classIndependence(t *c19tables, classes, others []*types.Var, fallback *types.Var) {
 	all := append([]*types.Var{}, classes...)
-	// classes named in the code->class table count too
 	seen := map[*types.Var]bool{}
 	for _, k := range all {
 		seen[k] = true
 	}
-	for _, v := range t.c2e {
+	for _, v := range others {
 		if v != nil && !seen[v] {
 			seen[v] = true
 			all = append(all, v)
@@ -597,14 +1236,21 @@ func (c *Ctx) classIndependence(t *c19tables, classes []*types.Var, fallback *ty
 		}
 	}
 	c.R.Floor("C19.R3", 10)
+}
 
-	// R7: no caller-supplied error is used as a map key. The class->code table is a map[error]Code; indexing it with an
-	// arbitrary error value hashes the value's dynamic type, and for an unhashable one (an error type that is a slice,
-	// a map, or a struct holding one - validation error lists are of this shape) the runtime panics, although the
-	// wrapped class is perfectly reachable through errors.Is. Exported functions taking an error index such a map only
-	// with package-level class variables (range keys, literals), never with a parameter.
+// errorKeyedMaps is C19.R7: no caller-supplied error is used as a map key. The class->code table is a map[error]Code;
+// indexing it with an arbitrary error value hashes the value's dynamic type, and for an unhashable one (an error type
+// that is a slice, a map, or a struct holding one - validation error lists are of this shape) the runtime panics,
+// although the wrapped class is perfectly reachable through errors.Is. Functions taking an error index such a map only
+// with package-level class variables (range keys, literals), never with a parameter. Functions that only the package
+// initialiser runs (table builders, initOnly) have no caller outside of the package: the keys they use are known and
+// were checked when the initialiser was evaluated.
+func (c *Ctx) errorKeyedMaps(initOnly map[*ssa.Function]bool) {
 	nIdx := 0
 	for _, fn := range c.P.FuncsOf("errors") {
+		if initOnly[fn] {
+			continue
+		}
 		ir.Instrs(fn, func(in ssa.Instruction) {
 			var m, key ssa.Value
 			switch x := in.(type) {
